@@ -17,7 +17,7 @@ if ! (cd $S && go build ./... >$O/build.log 2>&1); then echo "$ID$X: REJECT does
 if ! (cd $S && go test -vet=off -count=1 ./... >$O/test.log 2>&1); then echo "$ID$X: REJECT suite fails"; exit 1; fi
 alarms=0
 for p in C02 C03 C04 C05 C06 C08 C09 C10 C11 C12 C13 C14 C15 C16 C17 C18 C19 C20; do
-  out=$(bin/pqlint -property $p -tier quick -repo $S -verif /verif -out $O -noselftest 2>&1); rc=$?
+  out=$(${PQLINT:-bin/pqlint} -property $p -tier quick -repo $S -verif /verif -out $O -noselftest 2>&1); rc=$?
   if [ $rc -ne 0 ]; then
     alarms=$((alarms+1))
     echo "$ID$X: ALARM $p rc=$rc"
